@@ -93,7 +93,10 @@ def gen(rng, passes):
         elif i == 0 and nus == 2:
             vals[0] = 583            # the first sensor starts with a good reading
         tapes["P"][str(echo)] = vals
-        info["us"].append({"name": f"us{i}", "trig": trig, "echo": echo, "vals": vals})
+        via_helper = rng.random() < 0.2
+        if via_helper:
+            L += [f"def probe_us{i}():", f"    return us{i}.measure_distance()", ""]
+        info["us"].append({"name": f"us{i}", "trig": trig, "echo": echo, "vals": vals, "via_helper": via_helper})
     if not (nb or npot or nus):
         return gen(rng, passes)
     # optional reads in setup
@@ -152,6 +155,13 @@ def gen(rng, passes):
             body.append(f"mon.write(\"@A2:{p['name']}\")")
             body.append("mon.write(rb)")
     for u in info["us"]:
+        if u.get("via_helper"):
+            # the sensor is read through a user helper function
+            for _ in range(rng.choice([1, 2])):
+                body.append(f"mon.write(\"@U:{u['name']}\")")
+                body.append(f"dh = probe_{u['name']}()")
+                body.append("mon.write(dh)")
+            continue
         pre = ""
         if nested_us:
             # the sensor is only ever read inside a nested block
